@@ -141,9 +141,7 @@ def c12_compare(outs):
                 diffs.append("op kind")
             for f in ("state", "reward", "done", "trunc", "info"):
                 if f in a and a.get(f) != b.get(f):
-                    if f == "reward" and model.feq(a[f], b[f]):
-                        continue
-                    diffs.append(f)
+                    diffs.append(f)      # 'identical' is meant literally
             if diffs:
                 raise Violation(
                     "C12.agree", "trajectories differ between mode "
@@ -450,7 +448,8 @@ def c19_generate(seed, tier):
     n_env = rng.choice([2, 2, 3])
     family = cfgr.choice(["same_object", "same_spec", "same_params",
                           "same_params", "mixed", "mixed_layout",
-                          "bench_seeded_unseeded", "same_layout_rewired"])
+                          "bench_seeded_unseeded", "same_layout_rewired",
+                          "near_equal_numbers"])
     bench_name = cfgr.choice(configs.GEN_BENCH[:5])
     specs = []
     share = []
@@ -504,6 +503,23 @@ def c19_generate(seed, tier):
                     if i != j and T[i][j] == 1}
             specs.append({"kind": "yaml", "text": docgen.emit(d)})
             share.append(None)
+        elif family == "near_equal_numbers":
+            # the same generated scenario twice, but the second one's exploit
+            # probabilities and costs differ in the third decimal
+            if k == 0:
+                ne_p = configs.gen_params(cfgr, max_hosts=15)
+                ne = ne_p["num_exploits"] or ne_p["num_services"]
+                ne_p["exploit_probs"] = [round(cfgr.uniform(0.2, 0.9), 2)
+                                         for _ in range(ne)]
+                ne_p["exploit_cost"] = 1.25
+                p = ne_p
+            else:
+                p = dict(ne_p)
+                p["exploit_probs"] = [x + 0.003 for x in
+                                      ne_p["exploit_probs"]]
+                p["exploit_cost"] = 1.253
+            specs.append({"kind": "generated", "params": p})
+            share.append(None)
         elif family == "mixed":
             # same layout signature is likely only for equal specs
             specs.append(base if k == 0 or cfgr.random() < 0.5 else
@@ -516,7 +532,8 @@ def c19_generate(seed, tier):
     constructed = []
     shared_gen = family == "same_params" and cfgr.random() < 0.5
     same_layout = family in ("same_object", "same_spec", "same_params",
-                             "bench_seeded_unseeded", "same_layout_rewired")
+                             "bench_seeded_unseeded", "same_layout_rewired",
+                             "near_equal_numbers")
     n_ops = rng.choice([10, 20, 30, 40]) * (2 if tier == "thorough" else 1)
     # scratch worlds to generate model-guided ops per environment
     gens = {}
